@@ -154,12 +154,27 @@ const("tj_merge_variant", "versatiles_core/src/tilejson/mod.rs", [
     (r'pub fn merge\(&mut self, other: &TileJSON\).{0,900}?self\.values\.get_byte\((?:key|"minzoom")\)\.unwrap_or_default\(\)', 0),
 ], "1 = a missing own minzoom/maxzoom is replaced by the other document's, else min/max of both; every other key of the other document overwrites; 0 = a missing own limit counts as 0")
 
+# ---- C19 guards added by repairs ----
+def _subreader(_m=None):
+    files = ["versatiles_core/src/io/value_reader_slice.rs", "versatiles_core/src/io/value_reader_blob.rs", "versatiles_core/src/io/value_reader_file.rs"]
+    srcs = [read(f) for f in files]
+    sat = [bool(re.search(r"fn get_sub_reader.{0,300}?let end = start\.saturating_add\(length\);\s*if end > self\.len \{\s*bail!", x, re.S)) for x in srcs]
+    raw = [bool(re.search(r"fn get_sub_reader.{0,300}?let end = start \+ length;", x, re.S)) for x in srcs]
+    if all(sat): return 1
+    if any(raw): return 0
+    return UNKNOWN
+SPECS.append(("subreader_variant", "versatiles_core/src/io/value_reader_{slice,blob,file}.rs", _subreader, "get_sub_reader: 1 = `start.saturating_add(length)` then `end > self.len` is an error (all three readers); 0 = unchecked `start + length`"))
+const("fm_unwrap_variant", "versatiles_geometry/src/vector_tile/layer.rs", [
+    (r"pub fn filter_map_properties.{0,500}?decode_tag_ids\(&feature\.tag_ids\)\.unwrap\(\)", 0),
+    (r"pub fn filter_map_properties.{0,500}?match self\.decode_tag_ids\(&feature\.tag_ids\) \{\s*Ok\(properties\) => filter_fn\(properties\)\.map\(\|properties\| Ok\(\(feature, properties\)\)\),\s*Err\(e\) => Some\(Err\(e\)\),", 1),
+], "filter_map_properties: 1 = an undecodable feature makes the call return the error; 0 = `.unwrap()`")
+
 def main():
     out = ["(* GENERATED by tools/scrape_constants.py from /repo — do not edit *)",
            "From Coq Require Import NArith.", "Local Open Scope N_scope.", ""]
     vals = {}
     for name, rel, alts, comment in SPECS:
-        v = first(rel, alts)
+        v = alts() if callable(alts) else first(rel, alts)
         vals[name] = v
         out.append(f"(* {rel}: {comment} *)")
         out.append(f"Definition {name} : N := {v}.")
